@@ -27,6 +27,7 @@ EXPLANATION = (
     "documented before any request. (R3) an unknown setting id raises ValueError without any request. The first sentence of the "
     "property is decided in full (reachability is a statement about code shape)."
     ' R1 also checks the factories the classification relies on: Inverter._read_command / _write_command / _write_multi_command return exactly self._protocol.<same factory>(<their arguments>), and the protocol factories return one fresh construction of the matching command class from self._comm_addr and their own arguments.'
+    " (R4, shared with C08.R3) the tests that recognise 'register does not exist' compare against a reason text the validators produce, so a refused setting becomes an unknown id."
 )
 
 READ_ONLY = ("read_device_info", "read_runtime_data", "read_sensor", "read_setting", "read_settings_data", "get_grid_export_limit",
